@@ -309,6 +309,27 @@ fn exec_c<C: Suite>(scen: &Scenario) -> Exec {
                 }
             }
         }
+        // (d') the threshold recorded in the coordinator's public key package is enforced by the randomised entry points
+        // even when every share is valid: |S| honest signers, package records |S| + 1
+        {
+            let raised = frost::keys::PublicKeyPackage::<C>::new(pk.verifying_shares().clone(), vk, Some(ids.len() as u16 + 1));
+            rep.evaluations += 4;
+            if frost_rerandomized::aggregate(&pkg, &honest, &raised, &cparams).is_ok() {
+                return Exec::Violation(viol("C17.threshold_not_enforced", format!("randomised aggregate accepted {} shares although the public key package records threshold {}", ids.len(), ids.len() + 1)), rep);
+            }
+            for mode in [CheaterDetection::Disabled, CheaterDetection::FirstCheater, CheaterDetection::AllCheaters] {
+                if frost_rerandomized::aggregate_custom(&pkg, &honest, &raised, mode, &cparams).is_ok() {
+                    return Exec::Violation(viol("C17.threshold_not_enforced", format!("randomised aggregate_custom accepted {} shares although the public key package records threshold {}", ids.len(), ids.len() + 1)), rep);
+                }
+            }
+            // and the signer side: a key package that records |S| + 1 refuses
+            let kp0 = &members[0];
+            let strict = KeyPackage::<C>::new(*kp0.identifier(), *kp0.signing_share(), *kp0.verifying_share(), *kp0.verifying_key(), ids.len() as u16 + 1);
+            if frost_rerandomized::sign_with_randomizer_seed(&pkg, &nn[0], &strict, &cseed).is_ok() {
+                return Exec::Violation(viol("C17.threshold_not_enforced", "sign_with_randomizer_seed signed although the key package records a higher threshold".to_string()), rep);
+            }
+            rep.probe("threshold_under_randomization");
+        }
         // (e) explicit randomisers through the deprecated entry point, zero included
         for which in ["zero", "random"] {
             let rs = if which == "zero" { zero::<C>() } else { sc_random_nonzero::<C>(&mut sp) };
